@@ -466,3 +466,83 @@ func (r *Rng) HalfWord() uint64 {
 		return 0xffffffff00000000 | uint64(lo)
 	}
 }
+
+// FoldWindow returns an l-byte big-endian string v = hi*2^256 + lo (32 <= l <= 64) for a
+// reduction that folds at bit 256 with the constant c = 2^256 mod m: the once-folded
+// value hi*c + lo = j*2^256 + e is steered so that the SECOND fold j*c + e lands on a
+// carry boundary - just below / above 2^256, or above 2^256 by an amount whose low
+// limbs are about to carry when c is added once more (2^64k - [1, c]).  Uniformly
+// random strings reach none of these (probability about 2^-190 for the last class);
+// which of them an implementation cares about depends on how it propagates carries.
+func (r *Rng) FoldWindow(l int, c *big.Int) []byte {
+	mask := new(big.Int).Sub(two256, one)
+	hiB := r.Bytes(l - 32)
+	switch r.Intn(3) {
+	case 0:
+		for i := range hiB {
+			hiB[i] = 0xff
+		}
+		if len(hiB) > 0 && r.Bool() {
+			hiB[len(hiB)-1] -= byte(r.Intn(4))
+		}
+	case 1:
+		if len(hiB) > 0 && c.IsUint64() {
+			hiB = r.ResonantWide(len(hiB), c.Uint64())
+		}
+	}
+	hi := new(big.Int).SetBytes(hiB)
+	hc := new(big.Int).Mul(hi, c)
+	q := new(big.Int).Rsh(hc, 256)
+	rem := new(big.Int).And(hc, mask)
+	cLow := uint64(1) << 34
+	if c.IsUint64() && c.Uint64() < cLow {
+		cLow = c.Uint64()
+	}
+	small := func() *big.Int { return big.NewInt(int64(r.Intn(7) - 3)) }
+	for try := 0; try < 6; try++ {
+		up := r.Bool()
+		jj := new(big.Int).Set(q)
+		if up {
+			jj.Add(jj, one)
+		}
+		jc := new(big.Int).And(new(big.Int).Mul(jj, c), mask)
+		e := new(big.Int)
+		switch r.Intn(6) {
+		case 0:
+			e.SetInt64(int64(r.Intn(4)))
+		case 1:
+			e.Sub(mask, big.NewInt(int64(r.Intn(4))))
+		case 2:
+			e.Sub(two256, jc)
+			e.Add(e, small())
+		case 3:
+			e.Sub(two256, jc)
+			e.Add(e, new(big.Int).Lsh(one, uint(64*(1+r.Intn(3)))))
+			e.Sub(e, new(big.Int).SetUint64(1+r.U64()%cLow))
+		case 4:
+			e.Sub(two256, jc)
+			e.Add(e, new(big.Int).Lsh(one, uint(64*(1+r.Intn(3)))))
+			e.Add(e, small())
+		default:
+			e.Sub(two256, c) // the modulus
+			e.Sub(e, jc)
+			e.Add(e, small())
+		}
+		e.And(e, mask) // (big.Int And of a negative value is two's complement: fine)
+		if e.Sign() < 0 {
+			e.Add(e, two256)
+		}
+		lo := new(big.Int).Sub(e, rem)
+		if up {
+			lo.Add(lo, two256)
+		}
+		if lo.Sign() < 0 || lo.Cmp(two256) >= 0 {
+			continue
+		}
+		out := make([]byte, l)
+		copy(out, hiB)
+		lo.FillBytes(out[l-32:])
+		return out
+	}
+	return append(hiB, r.Bytes(32)...)
+}
